@@ -49,6 +49,16 @@ func StableRuleEdits() []string {
 	return out
 }
 
+// ErrorPathEdit draws a rule edit for the checks about recycling and concurrency: one time in three an edit that
+// leaves a reference unresolvable (with continue-on-errors the library then walks its error paths, where intermediate
+// results are merged and handed back to the pools), else any order-stable edit.
+func ErrorPathEdit(t *rapid.T) string {
+	if UniformIndex(t, 3, "errorpathedit") == 0 {
+		return PickUniform(t, []string{"unresolvableAllOfRef", "unresolvableAllOfRef", "unresolvableDefinitionRef", "unresolvableParameterRef", "unresolvableResponseRef"}, "docedit")
+	}
+	return PickUniform(t, StableRuleEdits(), "docedit")
+}
+
 func pickOp(t *rapid.T, info *SpecInfo, pred func(OpInfo) bool) (OpInfo, bool) {
 	var c []OpInfo
 	for _, o := range info.Ops {
@@ -105,9 +115,17 @@ func ApplyRuleEdit(t *rapid.T, name string, doc map[string]any, info *SpecInfo) 
 		if len(info.Ops) < 2 {
 			return false
 		}
-		i := rapid.IntRange(1, len(info.Ops)-1).Draw(t, "dupopidx")
-		operationOf(doc, info.Ops[i])["operationId"] = info.Ops[0].ID
-		info.Ops[i].ID = info.Ops[0].ID
+		i := 1 + UniformIndex(t, len(info.Ops)-1, "dupopidx")
+		j := UniformIndex(t, i, "dupopidx2")
+		id := info.Ops[j].ID
+		if UniformIndex(t, 3, "unusualopid") == 0 {
+			// any string is an operation id: the duplicated one may have spaces, dots, non-ASCII letters or look like a path
+			id = PickUniform(t, []string{"list things", "a.b", "é", " ", "get/things", "GET things", "100%", "x y z"}, "opid")
+			operationOf(doc, info.Ops[j])["operationId"] = id
+			info.Ops[j].ID = id
+		}
+		operationOf(doc, info.Ops[i])["operationId"] = id
+		info.Ops[i].ID = id
 		return true
 	case "pathParamNotInTemplate":
 		oi, ok := pickOp(t, info, nil)
